@@ -767,6 +767,12 @@ func (a *Analysis) CheckC16(rep *Report) {
 			rep.Ob("Z0-analysable", FuncName(pp.fn), false, a.P.Pos(pp.fn.Pos()), fmt.Sprint(pp.err))
 			continue
 		}
+		if hasFuncParam(pp.fn) {
+			// a skeleton whose steps are function values handed in by the caller: what it does with the buffer is what
+			// those functions do – judged in every codec that calls it, where they are known and inlined
+			rep.Notes = append(rep.Notes, FuncName(pp.fn)+" takes function-valued parameters: judged at its call sites")
+			continue
+		}
 		check(FuncName(pp.fn), pp.fn, pp.paths, true)
 	}
 	for _, t := range a.U.Tables {
@@ -1211,4 +1217,15 @@ func (a *Analysis) spuriousRejections(paths []*Path) []string {
 		}
 	}
 	return out
+}
+
+// hasFuncParam: the function takes a parameter of function type (other than a factory `func() T` without parameters
+// that only builds a value).
+func hasFuncParam(fn *ssa.Function) bool {
+	for _, p := range fn.Params {
+		if sig, ok := p.Type().Underlying().(*types.Signature); ok && sig.Params().Len() > 0 {
+			return true
+		}
+	}
+	return false
 }
